@@ -141,3 +141,36 @@ Lemma old_xml_split_witness :
 Proof.
   exists (XMLNS ++ [97%N] ++ XMLNS ++ [98%N]). split; [vm_compute; reflexivity|]. vm_compute. discriminate.
 Qed.
+
+(* ---------------------------------------------------------------- *)
+(* Two NamespaceManagers over one store (what a graph object with a manager of its own
+   amounts to): the second manager's bind changes the store's dictionaries but cannot empty
+   the first manager's caches. *)
+Definition w_split := split_uri (fun c => if (N.leb 97 c && N.leb c 122)%bool then 1%N else 0%N) false.
+
+Definition other_manager_bind (s : mst) (p : option str) (n : str) (ov rep : bool) : mst :=
+  let s2 := fst (m_bind (set_tries (set_caches s [] []) [] (T [])) p n ov rep) in
+  set_maps s (p2n s2) (n2p s2).
+
+(* bind(a, h:e/); qname(h:e/x) through the first manager, bind(b, h:e/) through a second one:
+   the first still answers a:x, and a is not bound any more *)
+Lemma second_manager_witness :
+  let s := m_final w_split w_split (fun _ => true) m_init
+             [OBind (Some [97%N]) w_e true false; OQname (w_e ++ [120%N])] in
+  let s' := other_manager_bind s (Some [98%N]) w_e true false in
+  bij s' /\
+  exists p ns nm, m_compute w_split s' (w_e ++ [120%N]) true = (s', inl (p, ns, nm))
+    /\ dget (p2n s') p = None.
+Proof.
+  split.
+  - unfold other_manager_bind. cbn zeta.
+    set (s := m_final _ _ _ _ _).
+    assert (G : good w_split w_split (set_tries (set_caches s [] []) [] (T []))).
+    { pose proof (m_final_good w_split w_split (fun _ => true)
+                    [OBind (Some [97%N]) w_e true false; OQname (w_e ++ [120%N])] m_init
+                    (good_init w_split w_split)) as [B _].
+      split; [exact B|]. split; intros u q; discriminate. }
+    destruct (m_bind_good w_split w_split _ (Some [98%N]) w_e true false G) as [[B _] _].
+    exact B.
+  - eexists. eexists. eexists. split; vm_compute; reflexivity.
+Qed.
